@@ -477,6 +477,25 @@ def _run_elastic(case):
             v.append(viol("wdef", f"field {field}: Result('Wdef') = {float(W)!r}, exact 1/2 eps:C:eps * measure * thickness = {Wex!r} "
                                   f"(measure {measure!r}, thickness {thick})", **key))
         obs += [float(W) if np.ndim(W) == 0 else np.nan, *np.ravel(r1), *np.ravel(r2)]
+    # two more solves on the same simulation: the field is also prescribed at ONE interior node (still the exact solution), first at one
+    # node, then at another one: constrained sets of the same size that differ
+    if inn.size >= 2 and not v:
+        for extra, (G, c) in ((inn[0], (np.eye(dim)[0][:, None] * np.eye(dim)[0][None, :], np.zeros(dim))), (inn[-1], (np.zeros((dim, dim)), np.eye(dim)[-1]))):
+            G = G * float(case.get("amp", 1.0)) + 0.5 * float(case.get("amp", 1.0)) * np.eye(dim)[::-1]
+            c = c * float(case.get("amp", 1.0))
+            Uex = X[:, :dim] @ G.T + c
+            G3 = np.zeros((dim, 3))
+            G3[:, :dim] = G
+            simu.Bc_Init()
+            ntrans += _prescribe(simu, np.append(bn, extra), X, Uex, unknowns, case["bcform"], [_linfun(G3[i], c[i]) for i in range(dim)])
+            u = np.asarray(simu.Solve(), dtype=float).reshape(Nn, dim)
+            ntrans += 1
+            us = max(float(np.abs(Uex).max()), 1e-300)
+            e = float(np.abs(u - Uex).max()) if np.all(np.isfinite(u)) else np.inf
+            if e > TOL * us:
+                n = int(np.argmax(np.abs(u - Uex).max(1)))
+                v.append(viol("interior_nodal", f"field also prescribed at interior node {int(extra)} (second / third constrained set on the same simulation) on {zm.name}: "
+                                                f"node {n} has u = {u[n].tolist()}, exact {Uex[n].tolist()} (max error {e:.3e})", **key))
     return _finish(case, v, obs, Nn, inn.size, ntrans)
 
 
